@@ -317,6 +317,21 @@ class DriverBroken(Exception):
     pass
 
 
+def run_stream(fn, res, proof, *args):
+    """run one source-derived stream; a stream that cannot cope with what the (changed) code returns must not turn the whole check into an
+    infrastructure error: its crash is a broken correspondence (the oracles of the property have run before it and keep their verdicts)"""
+    try:
+        return fn(res, proof, *args)
+    except (Infra, KeyboardInterrupt):
+        raise
+    except Exception as e:
+        import traceback
+        tb = traceback.extract_tb(e.__traceback__)
+        proof.problem('stream-crash', '%s: %s in %s (%s)' % (type(e).__name__, str(e)[:200], getattr(fn, '__name__', '?'),
+                      ' <- '.join('%s:%d' % (os.path.basename(f.filename), f.lineno) for f in reversed(tb[-5:]))))
+        return None
+
+
 # ------------------------------------------------------------------------- known findings
 def load_known(prop):
     """returns (findings: dict key -> text, fixed: list of text)"""
